@@ -179,6 +179,15 @@ def _user_cases(rng, tier):
         tag = rng.randrange(10 ** 6)
         out.append({"kind": "kvdel", "nodes": nodes, "keys": ["order:%d:%d" % (tag, i) for i in range(50)],
                     "keep": ["keep:%d:%d" % (tag, i) for i in range(10)]})
+    # two cache clusters from the same configuration over the same servers: written through A, read through B
+    for w in ([100, 100, 100], rng.choice([[100, 50], [100, 100, 50, 25], [0, 100, 100]])):
+        out.append({"kind": "twin", "pkg": "cache", "weights": w,
+                    "keys": ["sess:%d:%d" % (rng.randrange(10 ** 7), i) for i in range(60)]})
+    # forced interleaving: a Get parked inside the (caller-supplied) hash function while Remove(node) is attempted on a
+    # ring of three nodes; half of the probe keys belong to the node being removed
+    for _ in range(2):
+        out.append({"kind": "race", "replicas": rng.choice([100, 120]), "kinds": [rng.choice(NODE_KINDS) for _ in range(3)],
+                    "remove": rng.randrange(3), "probes": _gen_keys(rng, 12)})
     data = []
     prefix = bytes(rng.randrange(256) for _ in range(80))
     for ln in [0, 1, 7, 8, 15, 16, 17, 31, 32, 33, 63, 64, 65, 100, 127, 128, 129, 300]:
@@ -270,11 +279,12 @@ def drive(cases, tier):
     obs = [None] * len(cases)
     logs = []
     groups = {"ring": ("./lib/hash", "^TestVerifDriver$"), "hash": ("./lib/hash", "^TestVerifDriver$"),
+              "race": ("./lib/hash", "^TestVerifDriver$"),
               "cache": ("./lib/store/cache", "^TestVerifDriverC13$"), "kv": ("./lib/store/kv", "^TestVerifDriverC13$")}
 
     def grp(c):
         k = c.get("kind", "ring")
-        return c["pkg"] if k == "dispatch" else ("kv" if k == "kvdel" else k)
+        return c["pkg"] if k == "dispatch" else ("kv" if k == "kvdel" else ("cache" if k == "twin" else k))
     for g, (pkg, run) in groups.items():
         idx = [i for i, c in enumerate(cases) if grp(c) == g]
         if not idx:
@@ -294,6 +304,10 @@ def _optlist(xs):
 
 def encode(case, obs):
     kind = case.get("kind", "ring")
+    if kind == "race":
+        o3 = lambda v: copt(None if v in (-1, -3) else cnat(9999 if v == -2 else v))
+        rows = [cpair(o3(r["pre"]), o3(r["ans"]), o3(r["post"])) for r in obs["rows"]]
+        return "CR %s %s %s" % (cnat(case["remove"]), clist(rows), cbool(any(r["hung"] for r in obs["rows"])))
     if kind == "kvdel":
         nl = lambda xs: clist([cnat(x) for x in xs])
         return "CD %s %s %s %s %s %s %s %s %s" % (cnat(len(case["keys"])), cnat(obs["count"]), nl(obs["remaining"]), cbool(obs["kept"]),
@@ -303,6 +317,9 @@ def encode(case, obs):
         written = clist([copt(None if om else cnat(w)) for w, om in zip(case["weights"], case["omit"])])
         return "CL %s %s %s %s %s" % (written, _optlist(obs["got"]), _optlist(obs["ref"]),
                                       clist([cnat(max(w, 0)) for w in (obs.get("loaded_weights") or [])]), cnat(case.get("balance_tol", 0)))
+    if kind == "twin" or (kind == "dispatch" and "gotb" in obs):
+        return "CT %s %s %s %s %s" % (clist([cnat(w) for w in case["weights"]]), _optlist(obs["got"]), _optlist(obs["gotb"]),
+                                      _optlist(obs["ref"]), cnat(obs.get("missing", 0)))
     if kind == "dispatch":
         return "CX %s %s %s" % (clist([cnat(w) for w in case["weights"]]), _optlist(obs["got"]), _optlist(obs["ref"]))
     if kind == "hash":
@@ -352,9 +369,11 @@ def _encode_ring(case, obs):
 
 
 def nontrivial(case, obs):
+    if case.get("kind") == "race":
+        return any(r["pre"] == case["remove"] for r in obs["rows"]) and any(r["pre"] != case["remove"] for r in obs["rows"])
     if case.get("kind") == "kvdel":
         return any(a != b for a, b in zip(obs["owners"], obs["owners"][1:]))
-    if case.get("kind") == "dispatch":
+    if case.get("kind") in ("dispatch", "twin"):
         return len(set(obs["got"])) >= 2
     if case.get("kind") == "hash":
         return len(obs["got"]) > 5
@@ -371,13 +390,18 @@ def nontrivial(case, obs):
 
 
 def bucket(case, obs):
+    if case.get("kind") == "race":
+        return ["get-parked-during-remove", "race:remove-overtook-get" if any(r["overtook"] for r in obs["rows"]) else "race:remove-waited-for-get",
+                "race:keys-of-removed-node=%d" % sum(r["pre"] == case["remove"] for r in obs["rows"])]
     if case.get("kind") == "kvdel":
         return ["kv-multi-key-del", "shards=%d" % case["nodes"],
                 "adjacent-owner-changes=%d" % sum(a != b for a, b in zip(obs["owners"], obs["owners"][1:]))]
     if case.get("kind") == "dispatch" and case.get("loaded"):
         return ["loaded:%s:%s" % (case["pkg"], case["loaded"]), "loaded:weight-omitted=%d/%d" % (sum(case["omit"]), len(case["omit"]))]
+    if case.get("kind") == "twin":
+        return ["twin-instances:write-A-read-B", "nodes=%d" % len(case["weights"])]
     if case.get("kind") == "dispatch":
-        return ["dispatch:" + case["pkg"], "nodes=%d" % len(case["weights"])]
+        return ["dispatch:" + case["pkg"], "nodes=%d" % len(case["weights"])] + (["dispatch:two-instances"] if "gotb" in obs else [])
     if case.get("kind") == "hash":
         return ["hash-vs-murmur3"]
     out = ["ops=%d" % len(case["ops"])]
@@ -424,6 +448,10 @@ def _final_members(case):
 
 
 def explain(case, obs):
+    if case.get("kind") == "race":
+        bad = [(case["probes"][i], r) for i, r in enumerate(obs["rows"]) if r["hung"] or r["ans"] < 0 or r["ans"] not in (r["pre"], r["post"]) or r["post"] in (case["remove"], -1, -3)]
+        return ("a Get parked in the middle of its lookup while Remove(node %d) ran on a ring of 3 nodes answered neither the owner before nor "
+                "the owner after the removal (-1 = absent although two nodes were present all the time, -3 = panic), or a call hung: %s" % (case["remove"], bad[:4]))
     if case.get("kind") == "kvdel":
         return ("kv Store.Del(k1..k50) over %d shards: returned %s (single-key deletes: %s), named keys still present afterwards: %s, "
                 "other keys kept: %s, errors: %s -- every named key must be removed from ITS owner shard" % (
@@ -434,7 +462,12 @@ def explain(case, obs):
                 "do not get roughly equal shares; shares %s" % (
                     case["pkg"], case["loaded"], [i for i, o in enumerate(case["omit"]) if o], obs.get("loaded_weights"),
                     [obs["got"].count(i) for i in range(len(case["weights"]))]))
-    if case.get("kind") == "dispatch":
+    if case.get("kind") in ("dispatch", "twin") and "gotb" in obs and (obs["gotb"] != obs["got"] or obs.get("missing")):
+        diff = [(k, a, b) for k, a, b in zip(case["keys"], obs["got"], obs["gotb"]) if a != b]
+        return ("two cache clusters built from the SAME configuration (two service instances) place keys on different nodes "
+                "(key, node in A, node in B): %s; keys written through A that B does not read back: %s -- placement must depend on "
+                "the configuration only" % (diff[:6], obs.get("missing", 0)))
+    if case.get("kind") in ("dispatch", "twin"):
         return ("the %s built from the configured (address, weight) pairs dispatches some key to another node than the consistent "
                 "hash built directly from the same pairs (or reports absence although a node has positive weight)" % case["pkg"])
     if case.get("kind") == "hash":
